@@ -50,6 +50,33 @@ pub enum Case {
     NonMinimalVarintValue,
 }
 
+/// a connection id that differs from the genuine one: a flipped bit, a proper prefix
+/// (truncated, possibly to nothing) or an extension (RFC 9000 7.3: the values must MATCH)
+fn wrong_cid(id: &mut Vec<u8>, r: &mut vq_util::Rng) {
+    if id.is_empty() {
+        id.push(1);
+        return;
+    }
+    match r.below(5) {
+        0 | 1 => {
+            let k = r.below(id.len() as u64) as usize;
+            id[k] ^= 1 << r.below(8);
+        }
+        2 => {
+            let keep = r.below(id.len() as u64) as usize;
+            id.truncate(keep);
+        }
+        3 => id.clear(),
+        _ => {
+            if id.len() < 20 {
+                id.push(r.below(256) as u8);
+            } else {
+                id.truncate(id.len() - 1);
+            }
+        }
+    }
+}
+
 pub const CASES: &[Case] = &[
     Case::AckDelayExponent21,
     Case::MaxAckDelay16384,
@@ -172,21 +199,14 @@ pub fn rewrite(case: Case, seed: u64) -> Rewrite {
             }
             Case::WrongInitialScid => {
                 if let Some(e) = items.iter_mut().find(|(i, _)| *i == tp::ID_ISCID) {
-                    if e.1.is_empty() {
-                        e.1.push(1);
-                    } else {
-                        let k = r.below(e.1.len() as u64) as usize;
-                        e.1[k] ^= 0x40;
-                    }
+                    wrong_cid(&mut e.1, &mut r);
                 }
             }
             Case::MissingInitialScid => items.retain(|(i, _)| *i != tp::ID_ISCID),
             Case::ServerMissingOdcid => items.retain(|(i, _)| *i != tp::ID_ODCID),
             Case::ServerWrongOdcid => {
                 if let Some(e) = items.iter_mut().find(|(i, _)| *i == tp::ID_ODCID) {
-                    if let Some(b) = e.1.first_mut() {
-                        *b ^= 1;
-                    }
+                    wrong_cid(&mut e.1, &mut r);
                 }
             }
             Case::ServerRetryScidWithoutRetry => items.push((tp::ID_RSCID, vec![1, 2, 3, 4, 5, 6, 7, 8])),
